@@ -108,7 +108,8 @@ def run(run):
     # every line number as a resume point (and functions far larger than 32 KiB of code); user variables named like anything
     # the macros declare in their own expansion (plus a list of everyday names)
     sweepf = '-DVP_SWEEP="%s"' % os.path.join(gd, "proto_gen_sweep.c")
-    sw = build_driver(run, "proto_sweep", "proto_main.c", [], extra_flags=[gen, sweepf], cc=["gcc", "-std=gnu11", "-O0", "-g", "-DLIBRFN_VERIF"])
+    parts = open(os.path.join(gd, "proto_gen_sweep.c.parts")).read().split()
+    sw = build_driver(run, "proto_sweep", ["proto_main.c"] + parts, [], extra_flags=[gen, sweepf], cc=["gcc", "-std=gnu11", "-O0", "-g", "-DLIBRFN_VERIF"])
     capf = '-DVP_GEN="%s"' % os.path.join(gd, "proto_gen_capture.c")
     try:
         cap = build_driver(run, "proto_capture", "proto_main.c", [], extra_flags=[capf, "-DVP_CAPTURE"])
